@@ -44,6 +44,19 @@ def run(ctx):
                                             {"c": 0, "op": "send", "chunking": "whole", "reqs": [echo("t1"), x, echo("t2")]}, {"c": 0, "op": "halfclose"}]})
                 nw += 1
         counts["write_failures"] = nw
+        # the application stops the server while connections wait for their next request (the root span of that request is
+        # already open) or have not sent anything yet
+        ns = 0
+        for name, args in COMPOSED[:3] + [("ECHO", [tok("str", "v1")])]:
+            for rp in ("", "pw:exact"):
+                x = {"cls": "c20", "name": name, "args": args}
+                scenarios.append({"handler": "rec", "tracer": True, "nconns": 3, "requirepass": rp, "steps": [
+                    {"c": 0, "op": "send", "chunking": "whole", "reqs": [echo("t1"), x]},
+                    {"c": 1, "op": "send", "chunking": "whole", "reqs": []},
+                    {"c": 2, "op": "send", "chunking": "whole", "cut": 9, "reqs": [echo("t2")]},       # half a request received
+                    {"c": 0, "op": "stop"}]})
+                ns += 1
+        counts["stops_with_open_connections"] = ns
     ctx.stage("generate")
     accepted, scs, lines = connlib.run_scenarios(ctx, scenarios, "c20")
     groups = connlib.report(ctx, accepted, scs, lines, None)
